@@ -22,8 +22,13 @@ build || { echo "clean build failed"; tail $W/build.log; }
 ( cd $W/demo && timeout 600 bash ./run.sh ) >$OUT/demo_clean.log 2>&1; DEMO_CLEAN=$?
 git -C $W apply $OUT/patch.diff || { echo "patch does not apply"; git -C /repo worktree remove --force $W; exit 2; }
 build; BUILD_RC=$?
-ctest --test-dir $W/_build -j16 --timeout 900 -E regress >$OUT/tests.log 2>&1; TESTS_RC=$?
-TESTS_SUMMARY=$(grep -E "tests passed|tests failed" $OUT/tests.log | tail -1)
+ctest --test-dir $W/_build -j8 --timeout 900 -E regress >$OUT/tests.log 2>&1; TESTS_RC=$?
+# the rate-limit tests are statistical and flaky on a loaded machine: re-run only the failed ones, up to 3 times
+for try in 1 2 3; do
+  [ $TESTS_RC -eq 0 ] && break
+  ctest --test-dir $W/_build --rerun-failed --timeout 900 >>$OUT/tests.log 2>&1; TESTS_RC=$?
+done
+TESTS_SUMMARY=$(grep -E "tests passed|tests failed" $OUT/tests.log | tr '\n' ';')
 ( cd $W/demo && timeout 600 bash ./run.sh ) >$OUT/demo_patched.log 2>&1; DEMO_PATCHED=$?
 ( cd /verif && VERIF_REPO=$W timeout 1800 ./check $ID --tier quick ) >$OUT/check.log 2>&1; CHECK_RC=$?
 KEYS=$(grep -E "^  key=" $OUT/check.log | sed 's/  key=//' | tr '\n' ' ')
